@@ -40,17 +40,30 @@ def _const(node, types, what, U):
 def generate(api):
     U = api.P.Untranslatable
     tree, rel = api.parse("ui/components/progress_bar.py")
-    cls = [n for n in tree.body if isinstance(n, ast.ClassDef) and n.name == "ProgressBar"]
-    if len(cls) != 1:
-        raise U("%s: class ProgressBar not found" % rel)
-    cls = cls[0]
+    P = api.P
+    cls = P.find_class(tree, "ProgressBar", rel)
     attrs = {}
-    for st in cls.body:
-        if isinstance(st, ast.Assign) and len(st.targets) == 1 and isinstance(st.targets[0], ast.Name):
-            attrs[st.targets[0].id] = st.value
     for n in ("bar_width", "bar_char", "empty_bar_char", "progress_char", "redraw_freq", "formats"):
-        if n not in attrs:
-            raise U("%s: class attribute ProgressBar.%s not found" % (rel, n))
+        # the one binding of the name in the class body (a second assignment, `formats.update(...)` in the class body
+        # or a conditional redefinition would make the literal a half-read)
+        sts = [st for st in cls.body if isinstance(st, ast.Assign) and len(st.targets) == 1
+               and isinstance(st.targets[0], ast.Name) and st.targets[0].id == n]
+        if len(sts) != 1 or P._other_bindings(cls.body, n, sts[0]):
+            raise U("%s: class attribute ProgressBar.%s is not bound exactly once" % (rel, n))
+        if any(isinstance(x, ast.Name) and x.id == n and isinstance(x.ctx, ast.Load)
+               for st in cls.body if not isinstance(st, (ast.FunctionDef, ast.ClassDef)) for x in ast.walk(st)):
+            raise U("%s: ProgressBar.%s is used again in the class body" % (rel, n))
+        attrs[n] = sts[0].value
+    for x in ast.walk(tree):
+        # the table of formats is never written to
+        if isinstance(x, ast.Attribute) and x.attr == "formats" and (isinstance(x.ctx, (ast.Store, ast.Del))):
+            raise U("%s:%d: ProgressBar.formats is rebound" % (rel, x.lineno))
+        if isinstance(x, ast.Subscript) and isinstance(x.ctx, (ast.Store, ast.Del)) and isinstance(x.value, ast.Attribute) \
+                and x.value.attr == "formats":
+            raise U("%s:%d: an entry of ProgressBar.formats is assigned" % (rel, x.lineno))
+        if isinstance(x, ast.Attribute) and isinstance(x.value, ast.Attribute) and x.value.attr == "formats" \
+                and x.attr not in ("get", "keys", "values", "items", "copy"):
+            raise U("%s:%d: ProgressBar.formats.%s: the table may be changed at run time" % (rel, x.lineno, x.attr))
     bar_width = _const(attrs["bar_width"], (int,), rel + ": bar_width", U)
     bar_char = _const(attrs["bar_char"], (str, type(None)), rel + ": bar_char", U)
     empty_char = _const(attrs["empty_bar_char"], (str,), rel + ": empty_bar_char", U)
@@ -66,22 +79,50 @@ def generate(api):
         formats.append((_const(k, (str,), rel + ": formats key", U), _const(v, (str,), rel + ": formats value", U)))
     if len(set(k for k, _ in formats)) != len(formats):
         raise U("%s: duplicate key in ProgressBar.formats" % rel)
+    # a dictionary: the order of the entries means nothing; the known names come first in a fixed order
+    KNOWN_FORMATS = ["normal", "normal_nomax", "verbose", "verbose_nomax", "very_verbose", "very_verbose_nomax",
+                     "debug", "debug_nomax"]
+    formats.sort(key=lambda kv: KNOWN_FORMATS.index(kv[0]) if kv[0] in KNOWN_FORMATS else len(KNOWN_FORMATS))
 
-    init = api.P.find_function(tree, "ProgressBar", "__init__", rel)
+    init = P.find_function(tree, "ProgressBar", "__init__", rel, decorators=())
     names = [a.arg for a in init.args.args]
     defaults = dict(zip(names[len(names) - len(init.args.defaults):], init.args.defaults))
-    if names[:4] != ["self", "io", "max", "min_seconds_between_redraws"] or set(defaults) != {"max", "min_seconds_between_redraws"}:
+    if names != ["self", "io", "max", "min_seconds_between_redraws"] or set(defaults) != {"max", "min_seconds_between_redraws"} \
+            or init.args.vararg or init.args.kwarg or init.args.kwonlyargs:
         raise U("%s: ProgressBar.__init__ signature changed: %s" % (rel, names))
     dmax = _const(defaults["max"], (int,), rel + ": default max", U)
     dmin = _const(defaults["min_seconds_between_redraws"], (int, float), rel + ": default min_seconds_between_redraws", U)
-    selfset = {}
-    for st in init.body:
+    # every statement of __init__ that concerns the redraw bookkeeping is accounted for: the literal initial values
+    # (each once, at top level), then the two conditional overrides the hand-written model knows, `self._set_max_steps(max)`;
+    # statements that mention none of these attributes / parameters are not concerned
+    BOOK = ("_min_seconds_between_redraws", "_max_seconds_between_redraws", "_last_write_time", "_write_count",
+            "_last_messages_length", "_should_overwrite")
+    KNOWN = {
+        "if min_seconds_between_redraws > 0:\n    self.redraw_freq = None\n"
+        "    self._min_seconds_between_redraws = min_seconds_between_redraws": ("_min_seconds_between_redraws",),
+        "if not self._io.supports_ansi():\n    self._should_overwrite = False\n    self.redraw_freq = None": ("_should_overwrite",),
+    }
+    selfset, seen_known = {}, set()
+    for st in P.strip_doc(init.body):
+        if not P.mentions(st, names=("max", "min_seconds_between_redraws"), attrs=BOOK + ("redraw_freq",)) and not P.exits(st):
+            continue
+        text = ast.unparse(st)
         if (isinstance(st, ast.Assign) and len(st.targets) == 1 and isinstance(st.targets[0], ast.Attribute)
                 and isinstance(st.targets[0].value, ast.Name) and st.targets[0].value.id == "self"
-                and isinstance(st.value, ast.Constant)):
+                and st.targets[0].attr in BOOK and isinstance(st.value, ast.Constant)
+                and st.targets[0].attr not in selfset
+                and not any(st.targets[0].attr in KNOWN[k] for k in seen_known)):
             selfset[st.targets[0].attr] = st.value.value
-    for n in ("_min_seconds_between_redraws", "_max_seconds_between_redraws", "_last_write_time", "_write_count",
-              "_last_messages_length", "_should_overwrite"):
+        elif text in KNOWN and text not in seen_known and all(a in selfset for a in KNOWN[text]):
+            seen_known.add(text)
+        elif text == "self._set_max_steps(max)":
+            pass
+        else:
+            raise U("%s:%d: ProgressBar.__init__: statement about the redraw bookkeeping not understood: `%s`"
+                    % (rel, st.lineno, text.split("\n")[0][:80]))
+    if seen_known != set(KNOWN):
+        raise U("%s: ProgressBar.__init__ no longer has the two modelled overrides (min_seconds_between_redraws > 0, no ANSI)" % rel)
+    for n in BOOK:
         if n not in selfset:
             raise U("%s: __init__ no longer initialises self.%s with a literal" % (rel, n))
     tick = 64
@@ -97,32 +138,51 @@ def generate(api):
         raise U("%s: default min_seconds_between_redraws is not a whole number of ms" % rel)
 
     # D18b repair: finish() compares the maximum of the frame on the line (`_displayed_max`) too
-    fin = api.P.find_function(tree, "ProgressBar", "finish", rel)
-    ovw = api.P.find_function(tree, "ProgressBar", "_overwrite", rel)
-    guard = [st for st in fin.body if isinstance(st, ast.If) and "_should_overwrite" in ast.dump(st.test)]
-    if len(guard) != 1 or "_displayed_step" not in ast.dump(guard[0].test):
-        raise U("%s: finish() no longer has the modelled skip-the-redraw guard" % rel)
-    compares_max = "_displayed_max" in ast.dump(guard[0].test)
+    fin = P.find_function(tree, "ProgressBar", "finish", rel, decorators=())
+    ovw = P.find_function(tree, "ProgressBar", "_overwrite", rel, decorators=())
+    bf = P.Template("""
+        if not self._max:
+            self._max = self._step
+        if HOLE_guard:
+            return
+        self.set_progress(self._max)
+    """).match(fin.body, rel, "ProgressBar.finish")
+    guard = ast.unparse(bf["guard"])
+    base = "self._step == self._max and (not self._should_overwrite) and (self._displayed_step == self._step)"
+    if guard == base:
+        compares_max = False
+    elif guard == base + " and (self._displayed_max == self._max)":
+        compares_max = True
+    else:
+        raise U("%s:%d: finish() no longer has the modelled skip-the-redraw guard: %s" % (rel, bf["guard"].lineno, guard))
 
-    def assigns(fn, attr, value_attr):
-        for st in ast.walk(fn):
-            if (isinstance(st, ast.Assign) and len(st.targets) == 1 and isinstance(st.targets[0], ast.Attribute)
-                    and st.targets[0].attr == attr and isinstance(st.value, ast.Attribute) and st.value.attr == value_attr):
-                return True
-        return False
-    if not assigns(ovw, "_displayed_step", "_step"):
+    # `_overwrite` records what is on the line: as top-level statements, and these attributes are written nowhere else
+    # (but for the `= None` of __init__)
+    def records(attr, value):
+        top = [st for st in P.strip_doc(ovw.body) if ast.unparse(st) == "self.%s = self.%s" % (attr, value)]
+        stores = [x for x in ast.walk(cls) if isinstance(x, ast.Attribute) and x.attr == attr
+                  and isinstance(x.ctx, (ast.Store, ast.Del))]
+        inits = [st for st in P.strip_doc(init.body) if ast.unparse(st) == "self.%s = None" % attr]
+        if len(top) > 1 or len(inits) > 1 or len(stores) != len(top) + len(inits) or (top and exits_before(top[0])):
+            raise U("%s: self.%s is written in a way the model does not know" % (rel, attr))
+        return bool(top)
+
+    def exits_before(st):
+        body = P.strip_doc(ovw.body)
+        return P.exits(body[:body.index(st)])
+    if not records("_displayed_step", "_step"):
         raise U("%s: _overwrite() no longer records the displayed step" % rel)
-    records_max = assigns(ovw, "_displayed_max", "_max")
+    records_max = records("_displayed_max", "_max")
     if compares_max != records_max:
         raise U("%s: finish() compares _displayed_max (%s) but _overwrite() records it (%s)" % (rel, compares_max, records_max))
 
     ttree, trel = api.parse("utils/time.py")
-    tf = None
-    for st in ttree.body:
-        if isinstance(st, ast.Assign) and len(st.targets) == 1 and getattr(st.targets[0], "id", None) == "_TIME_FORMATS":
-            tf = st.value
-    if not isinstance(tf, ast.List):
-        raise U("%s: _TIME_FORMATS list literal not found" % trel)
+    tfs = [st for st in ttree.body if isinstance(st, ast.Assign) and len(st.targets) == 1
+           and getattr(st.targets[0], "id", None) == "_TIME_FORMATS"]
+    if len(tfs) != 1 or P._other_bindings(ttree.body, "_TIME_FORMATS", tfs[0]) or not isinstance(tfs[0].value, ast.List):
+        raise U("%s: _TIME_FORMATS list literal not found (or bound more than once)" % trel)
+    tf = tfs[0].value
+    uses = [x for x in ast.walk(ttree) if isinstance(x, ast.Name) and x.id == "_TIME_FORMATS" and isinstance(x.ctx, ast.Load)]
     rows = []
     for el in tf.elts:
         if not isinstance(el, ast.Tuple) or len(el.elts) not in (2, 3):
@@ -133,15 +193,29 @@ def generate(api):
         if lim < 0 or (div is not None and div < 1):
             raise U("%s: _TIME_FORMATS entry outside the modelled range" % trel)
         rows.append((lim, txt, div))
-    # format_time itself: for/if-continue/len==2/ceil(secs / fmt[2]) - a light shape check
-    ft = api.P.find_function(ttree, None, "format_time", trel)
-    src = ast.dump(ft)
-    for needle in ("ceil", "Gt()", "Continue()"):
-        if needle not in src:
-            raise U("%s: format_time no longer has the modelled shape (%s missing)" % (trel, needle))
+    # format_time itself, strictly: first row whose limit is not exceeded; two-element rows are the text, three-element
+    # rows `ceil(secs / divisor) text`
+    ft = P.find_function(ttree, None, "format_time", trel, decorators=())
+    P.plain_import(ttree, "math", trel)
+    bt = P.Template("""
+        def format_time(V_secs):
+            for V_fmt in _TIME_FORMATS:
+                if V_secs > V_fmt[0]:
+                    continue
+                if len(V_fmt) == 2:
+                    return V_fmt[1]
+                return "{} {}".format(math.ceil(V_secs / V_fmt[2]), V_fmt[1])
+    """)
+    try:
+        bt.match([ft], trel, "format_time")
+    except U as e:
+        raise U("%s: format_time no longer has the modelled shape (%s)" % (trel, e))
+    if len(uses) != 1:
+        raise U("%s: _TIME_FORMATS is used outside format_time's loop" % trel)
+    P.imported_as(tree, "format_time", ("clikit.utils.time",), rel)
 
     out = [api.HEADER + "namespace Clikit.Gen.C16\n"]
-    out.append("/-- `ProgressBar.formats` (name, template), in source order -/")
+    out.append("/-- `ProgressBar.formats` (name, template), in source order -/")  # (the order of the unchanged source)
     out.append("def formats : List (List Char × List Char) := [")
     out.append(",\n".join("  (%s,\n   %s)" % (_chars(k), _chars(v)) for k, v in formats))
     out.append("]\n")
